@@ -5,6 +5,7 @@ import re
 import time
 
 VERIF = os.path.dirname(os.path.dirname(os.path.abspath(__file__)))
+OUT = os.environ.get('VERIF_OUT') or VERIF     # scratch runs (seeded changes in parallel) redirect evidence/replay
 KNOWN = os.path.join(VERIF, 'known_findings.json')
 
 
@@ -91,7 +92,7 @@ class Ctx:
                     self.pid, kmap[kk].get('what_fails', v['what']), v['rule'], v['key'], v['where']))
             else:
                 new_viol.append(v)
-        rdir = os.path.join(VERIF, 'replay', self.pid)
+        rdir = os.path.join(OUT, 'replay', self.pid)
         for v in new_viol:
             os.makedirs(rdir, exist_ok=True)
             path = os.path.join(rdir, '%s-%s.json' % (slug(v['rule']), slug(v['key'])))
@@ -143,8 +144,8 @@ class Ctx:
             'wall_s': round(time.time() - self.t0, 3),
             'violations': len(new_viol),
         }
-        os.makedirs(os.path.join(VERIF, 'evidence'), exist_ok=True)
-        with open(os.path.join(VERIF, 'evidence', self.pid + '.json'), 'w') as fh:
+        os.makedirs(os.path.join(OUT, 'evidence'), exist_ok=True)
+        with open(os.path.join(OUT, 'evidence', self.pid + '.json'), 'w') as fh:
             json.dump(ev, fh, indent=1, default=str)
         for l in out_lines:
             print(l)
